@@ -87,7 +87,7 @@ func HarnessC19Stop() {
 	var conns []*vconn
 	for i := 0; i < n; i++ {
 		var in []byte
-		k := vsymChoice("sent", 3)
+		k := vsymChoice("sent", 1+vsymParamInt("maxsent", 2))
 		for j := 0; j < k; j++ {
 			in = append(in, vReqS("GET", "k")...)
 		}
@@ -97,6 +97,11 @@ func HarnessC19Stop() {
 		}
 		c := newVconn(in)
 		c.blockAtEnd = true
+		if i == 0 && k > 0 && vsymChoice("stopped-reading", 2) == 1 {
+			// the client does not read its replies: the server's first reply write stays blocked until the socket is closed
+			c.blockWrite = true
+			vsymCover("blocked-write")
+		}
 		if vsymChoice("close-reports-error", 2) == 1 {
 			c.closeErr = true
 			vsymCover("close-error")
